@@ -194,6 +194,24 @@ def ref_key(ctx: Ctx) -> RuleResult:
                       f"a reference is re-identified from '{src}' without carrying its key path ({src}.key): an indexed or unpacked "
                       f"use silently becomes a use of the whole value", norm_src(n))
     r.require(n_rel >= 3, f"only {n_rel} re-identification sites found (today: 11 in the splice and in compose; a shared helper may reduce that)")
+    # a reference is (id, key path): no table of references is keyed by the id alone - two references to different parts of one result
+    # (pair[0] and pair[1], value and flag of one tuple) would collapse into the last one stored
+    for f in pkg_funcs(ctx):
+        for d in iter_own_nodes(f.node):
+            if not (isinstance(d, ast.DictComp) and isinstance(d.key, ast.Attribute) and d.key.attr in ("id", "id_")):
+                continue
+            tgt = dotted(d.generators[0].target)
+            if tgt is None or dotted(d.key.value) != tgt:
+                continue
+            it = norm_src(d.generators[0].iter)
+            over_refs = it.endswith(".dependencies") or it.endswith(".args") or it.endswith(".kwargs.values()") or "uxn" in it.lower()
+            makes_ref = any(isinstance(x, ast.Call) and (dotted(x.func) or "").split(".")[-1] == "UsageExecNode" for x in ast.walk(d.value)) \
+                or dotted(d.value) == tgt
+            if over_refs and makes_ref:
+                r.ob(False, {"in": f.short, "references tabulated by id alone": norm_src(d)[:100]})
+                r.violate(f"{f.short}: references are tabulated by node id alone ({norm_src(d.key)})", f.loc(d),
+                          "a node that uses two differently indexed parts of the same producer gets one of them twice: the table keeps the "
+                          "last reference stored under the producer's id", norm_src(d)[:140])
     cf = control_funcs(ctx)
     if cf:
         bad = [1 for f, n, src, ok, how in _key_sites(ctx, cf) if src is not None and not ok]
@@ -377,6 +395,18 @@ def ref_mat(ctx: Ctx) -> RuleResult:
         if not ok:
             r.violate(f"ExecNode.execute: self.{fld} not materialised through the accessor", ex.loc(c),
                       "arguments must be read from the results map with UsageExecNode.result (id + key path)", norm_src(c))
+        # every reference of the field is handed to the function: a filter that consults the results map (or the reference itself)
+        # drops the argument of a dependency that did not run - the function then computes with its own default, or fails
+        for flt in [t for g_ in c.generators for t in g_.ifs]:
+            tgt_names = {x.id for g_ in c.generators for x in ast.walk(g_.target) if isinstance(x, ast.Name)}
+            key_only = fld == "kwargs" and isinstance(c.generators[0].target, ast.Tuple) and len(c.generators[0].target.elts) == 2 \
+                and names_in(flt) & tgt_names <= {dotted(c.generators[0].target.elts[0])}
+            bad = (res_p in names_in(flt)) or (bool(names_in(flt) & tgt_names) and not key_only)
+            r.ob(not bad, {"execute materialises": fld, "filtered by": norm_src(flt)})
+            if bad:
+                r.violate(f"ExecNode.execute: a reference of self.{fld} is materialised only when {norm_src(flt)[:60]}", ex.loc(flt),
+                          "a dependency that did not run in this call (deactivated, outside the selection) reads as None and is passed as "
+                          "None; dropping the argument makes the function use its own default or fail with a missing argument", norm_src(c)[:120])
         if fld == "args" and not isinstance(c, ast.ListComp):
             raise Undecided("positional arguments are not materialised in order by a list comprehension")
     # call of the node function with *args, **kwargs and storage under the node's own id
@@ -1616,22 +1646,27 @@ def ref_wrapdict(ctx: Ctx) -> RuleResult:
     r = RuleResult("REF-WRAPDICT")
     n = 0
     for f in pkg_funcs(ctx):
+        sites = []
         for call, q in ctx.calls_in(f):
             d = dotted(call.func) or ""
-            if not (d.endswith("update_wrapper") or q == "ext:functools.update_wrapper") or not call.args:
-                continue
-            t = ctx.type_of(f, call.args[0])
+            if (d.endswith("update_wrapper") or q == "ext:functools.update_wrapper") and call.args:
+                sites.append((call, call.args[0], next((k.value for k in call.keywords if k.arg == "updated"), call.args[3] if len(call.args) > 3 else None)))
+        # functools.wraps(F)(obj) is update_wrapper(obj, F)
+        for call in [x for x in iter_own_nodes(f.node) if isinstance(x, ast.Call) and isinstance(x.func, ast.Call)
+                     and (dotted(x.func.func) or "").split(".")[-1] == "wraps" and x.args]:
+            sites.append((call, call.args[0], next((k.value for k in call.func.keywords if k.arg == "updated"), None)))
+        for call, wrapped_obj, upd in sites:
+            t = ctx.type_of(f, wrapped_obj)
             cq = t[1] if t and t[0] in ("cls", "inst") and len(t) > 1 else None
             if cq is None and t and t[0] == "union":
                 cq = next((x[1] for x in t[1] if x and x[0] in ("cls", "inst")), None)
             if cq is None or cq not in ctx.P.classes:
                 # not an object of the package (e.g. the user's functools.partial, given the attributes of the function it wraps)
-                r.ob(True, {"in": f.short, "wraps": norm_src(call.args[0]), "package object": False})
+                r.ob(True, {"in": f.short, "wraps": norm_src(wrapped_obj), "package object": False})
                 continue
             cls = ctx.P.classes[cq]
             fields = sorted(ctx.P.all_fields(cls))
             n += 1
-            upd = next((k.value for k in call.keywords if k.arg == "updated"), call.args[3] if len(call.args) > 3 else None)
             ok = upd is not None and isinstance(upd, (ast.Tuple, ast.List)) and not upd.elts
             r.ob(ok, {"in": f.short, "wraps": cls.name, "fields in __dict__": len(fields), "updated=": norm_src(upd) if upd is not None else "(default: __dict__)"})
             if not ok and upd is None:
@@ -1804,6 +1839,21 @@ def ref_stubexec(ctx: Ctx) -> RuleResult:
             fn = next((k.value for k in n.keywords if k.arg == "exec_function"), None)
             if isinstance(fn, ast.Lambda) and len(fn.args.args) == 1 and isinstance(fn.body, ast.Name) and fn.body.id == fn.args.args[0].arg:
                 stubs.append(n)
+    # whatever forwards the argument forwards the caller's object itself (the inner nodes may update it in place, compare it by identity)
+    for n in own_walk(sp.block):
+        if isinstance(n, ast.Call) and ctx.T.resolve_callee(f, n) in fam:
+            fn = next((k.value for k in n.keywords if k.arg == "exec_function"), None)
+            d_ = (dotted(fn) or "") if fn is not None else ""
+            body_ = fn.body if isinstance(fn, ast.Lambda) else None
+            copies = d_.split(".")[-1] in ("copy", "deepcopy") or (
+                isinstance(body_, ast.Call) and (dotted(body_.func) or "").split(".")[-1] in ("copy", "deepcopy", "list", "dict", "set", "tuple"))
+            if fn is not None:
+                r.ob(not copies, {"hidden forwarding node runs": norm_src(fn)[:60]})
+            if copies:
+                r.violate(f"{f.short} splice: an explicit argument of a nested DAG reaches the inner nodes as a copy ({norm_src(fn)[:40]})", f.loc(n),
+                          "the nested DAG must compute what the inlined body computes: an inner node that updates the caller's object in place "
+                          "(or compares it by identity) works on a clone, and the outer DAG reads the untouched original afterwards",
+                          norm_src(n)[:120])
     r.ob(not stubs, {"identity nodes created per explicit argument": len(stubs)})
     if stubs:
         r.violate(f"{f.short} splice: explicit arguments are forwarded by executable identity nodes", f.loc(stubs[0]),
@@ -1971,6 +2021,88 @@ def ref_argorder(ctx: Ctx) -> RuleResult:
     return r
 
 
+def ref_rebuildall(ctx: Ctx) -> RuleResult:
+    """Wherever a node is rebuilt as `<its class>(**values)`, `values` carries EVERY field of the node: it comes from
+    dataclasses.asdict(node), or it names all the fields. A field that is left out silently takes its class default in the rebuilt node
+    (setup=False, debug=False, call_location='' ...): an embedded setup node runs on every call, a re-configured node loses the call
+    location its failures are reported with."""
+    r = RuleResult("REF-REBUILDALL")
+    base = ctx.P.classes[ctx.cls_q("ExecNode")]
+    fam = {c.qualname for c in ctx.P.subclasses(base.qualname)}
+    fields = {k for k in ctx.P.all_fields(base) if not k.startswith("_")}
+    nofield = {k for k, v in base.field_defaults.items() if isinstance(v, ast.Call) and dotted(v.func) == "field"
+               and any(kw.arg == "init" and isinstance(kw.value, ast.Constant) and kw.value.value is False for kw in v.keywords)}
+    fields -= nofield
+    consts = {}
+    for m in ctx.P.modules.values():
+        for st in m.tree.body:
+            tg = st.targets[0] if isinstance(st, ast.Assign) and len(st.targets) == 1 else (st.target if isinstance(st, ast.AnnAssign) else None)
+            v = getattr(st, "value", None)
+            if isinstance(tg, ast.Name) and isinstance(v, (ast.Tuple, ast.List)) and v.elts and all(const_str(e) is not None for e in v.elts):
+                consts[tg.id] = {const_str(e) for e in v.elts}
+
+    def keys_of(f: FuncInfo, name: str, at: ast.AST, depth: int = 0):
+        """(complete: bool | None, keys) for the mapping bound to `name` at `at`."""
+        ds = [d for d in ctx.reaching_defs(f, name, at) if isinstance(d, (ast.Assign, ast.AnnAssign)) and d.value is not None]
+        if len(ds) != 1:
+            return None, set()
+        v = ds[0].value
+        keys = set()
+        if isinstance(v, ast.Call) and (dotted(v.func) or "").split(".")[-1] == "asdict":
+            return True, set()
+        if isinstance(v, ast.Call) and depth < 2:
+            q = next((q for c, q in ctx.calls_in(f) if c is v), None)
+            g = ctx.P.funcs.get(q) if q else None
+            if g is not None:
+                rets = [x for x in iter_own_nodes(g.node) if isinstance(x, ast.Return) and isinstance(x.value, ast.Name)]
+                if len(rets) == 1:
+                    return keys_of(g, rets[0].value.id, rets[0], depth + 1)
+            return None, set()
+        if isinstance(v, ast.Dict) and all(k is not None and const_str(k) is not None for k in v.keys):
+            keys = {const_str(k) for k in v.keys}
+        elif isinstance(v, ast.DictComp) and isinstance(v.generators[0].iter, ast.Name) and v.generators[0].iter.id in consts \
+                and dotted(v.key) == dotted(v.generators[0].target) and not v.generators[0].ifs:
+            keys = set(consts[v.generators[0].iter.id])
+        elif isinstance(v, ast.Call) and dotted(v.func) == "dict" and not v.args and all(k.arg for k in v.keywords):
+            keys = {k.arg for k in v.keywords}
+        else:
+            return None, set()
+        for n in iter_own_nodes(f.node):
+            if isinstance(n, ast.Assign) and isinstance(n.targets[0], ast.Subscript) and dotted(n.targets[0].value) == name \
+                    and const_str(n.targets[0].slice) is not None:
+                keys.add(const_str(n.targets[0].slice))
+        return False, keys
+
+    n_sites = 0
+    for f in pkg_funcs(ctx):
+        for c in iter_own_nodes(f.node):
+            if not isinstance(c, ast.Call):
+                continue
+            star = [k.value for k in c.keywords if k.arg is None and isinstance(k.value, ast.Name)]
+            if len(star) != 1 or c.args or any(k.arg is not None for k in c.keywords):
+                continue
+            is_type_of = isinstance(c.func, ast.Call) and dotted(c.func.func) == "type" and len(c.func.args) == 1
+            if not (is_type_of or (ctx.T.resolve_callee(f, c) or "") in fam):
+                continue
+            if is_type_of:
+                t_ = ctx.type_of(f, c.func.args[0])
+                if not (t_ and t_[0] in ("inst", "cls") and t_[1] in fam):
+                    continue
+            complete, keys = keys_of(f, star[0].id, c)
+            if complete is None:
+                continue
+            n_sites += 1
+            missing = sorted(fields - keys) if complete is False else []
+            r.ob(not missing, {"rebuild": norm_src(c)[:60], "in": f.short, "values": "asdict" if complete else sorted(keys)})
+            if missing:
+                r.violate(f"{f.short}: a node is rebuilt from values that leave out {missing}", f.loc(c),
+                          "the rebuilt node takes the class default for each missing field: an embedded setup node is an ordinary node of the "
+                          "outer DAG (it runs on every call), a debug node runs with the flag off, a re-configured node has no call location "
+                          "and its failure is reported as the bare exception", norm_src(c)[:100])
+    r.require(n_sites >= 2, f"only {n_sites} rebuild sites `<node class>(**values)` with a readable origin")
+    return r
+
+
 def ref_callid(ctx: Ctx) -> RuleResult:
     """Everything a call of a decorated function registers is keyed by the id of THAT call: the hidden nodes made for its positional,
     keyword and activation constants take the call's id (`<id><<n>>`), not the function's base id - otherwise two calls of one
@@ -2083,7 +2215,7 @@ RULES = {
     "REF-CALLID": ref_callid,
     "REF-ARGORDER": ref_argorder,
     "REF-SPLICEALL": ref_spliceall,
-    "VAL-SENTINEL": val_sentinel,
+    "VAL-SENTINEL": val_sentinel, "REF-REBUILDALL": ref_rebuildall,
     "REF-SETUPOUT": ref_setupout,
     "REF-FUNTRANSIENT": ref_funtransient,
     "REF-UNWRAP": ref_unwrap,
